@@ -53,7 +53,7 @@ def case_strategy(draw, maxdepth, odd=False, namings=("distinct", "distinct", "s
             et, inner_src, it = ("T", (typed.S(typed.JET), typed.EVT)), "{P}[0]", typed.JET
         if draw(st.booleans()):
             w = cx.fresh(env)
-            s1 = typed._op(cx, "Where", s1, f"lambda {w}: {typed.gen(cx, typed.bind(env, w, et), typed.B, 1)}")
+            s1 = typed._op(cx, "Where", s1, f"lambda {w}: {typed.filter_body(cx, typed.bind(env, w, et), 1)}")
         pn = cx.fresh(env)
         e2 = typed.bind(env, pn, et)
         cn = cx.fresh(e2)
@@ -82,7 +82,7 @@ def case_strategy(draw, maxdepth, odd=False, namings=("distinct", "distinct", "s
                     t = typed.I
                 inner, it = typed._op(cx, "Select", inner, f"lambda {v}: {typed.gen(cx, e2, t, depth - 2)}"), t
             elif c <= 4:
-                inner = typed._op(cx, "Where", inner, f"lambda {v}: {typed.gen(cx, e2, typed.B, depth - 2)}")
+                inner = typed._op(cx, "Where", inner, f"lambda {v}: {typed.filter_body(cx, e2, depth - 2)}")
             else:
                 sp = [(e, t) for e, t in typed.seq_paths(cx, e2)]
                 if not sp:
@@ -113,7 +113,7 @@ def case_strategy(draw, maxdepth, odd=False, namings=("distinct", "distinct", "s
                     t = typed.I
                 src, et = typed._op(cx, "Select", src, f"lambda {v}: {typed.gen(cx, e2, t, depth - 1)}"), t
             elif c <= 4:
-                src = typed._op(cx, "Where", src, f"lambda {v}: {typed.gen(cx, e2, typed.B, depth - 1)}")
+                src = typed._op(cx, "Where", src, f"lambda {v}: {typed.filter_body(cx, e2, depth - 1)}")
             else:
                 inner, it = typed.any_seq(cx, e2, depth - 1)
                 src, et = typed._op(cx, "SelectMany", src, f"lambda {v}: {inner}"), it
